@@ -418,7 +418,22 @@ impl Report {
         let mut new_violations = 0;
         let mut known_hits: BTreeMap<String, (u64, String)> = BTreeMap::new();
         let mut seen_classes: BTreeSet<String> = BTreeSet::new();
-        let violations = std::mem::take(&mut self.violations);
+        let mut violations = std::mem::take(&mut self.violations);
+        // a broken tree can produce tens of thousands of violations: keep the first 25 of each
+        // class (in the deterministic order they were merged in), count the rest
+        {
+            let mut per_class: BTreeMap<String, u64> = BTreeMap::new();
+            let total = violations.len();
+            violations.retain(|v| {
+                let n = per_class.entry(v.class.clone()).or_insert(0);
+                *n += 1;
+                *n <= 25
+            });
+            if violations.len() < total {
+                self.extra.insert("violations_beyond_25_per_class".into(), json!(total - violations.len()));
+            }
+        }
+        let mut written_per_class: BTreeMap<String, u64> = BTreeMap::new();
         for v in &violations {
             if let Some(k) = known.iter().find(|k| k.status == "known" && k.property == v.property && k.class == v.class) {
                 let e = known_hits.entry(v.class.clone()).or_insert((0, k.what.clone()));
@@ -427,12 +442,9 @@ impl Report {
             }
             new_violations += 1;
             // At most three replay files per class, to keep output readable.
-            let n_in_class = violations
-                .iter()
-                .take_while(|w| !std::ptr::eq(*w, v))
-                .filter(|w| w.class == v.class)
-                .count();
-            if n_in_class >= 3 {
+            let n_in_class = written_per_class.entry(v.class.clone()).or_insert(0);
+            *n_in_class += 1;
+            if *n_in_class > 3 {
                 continue;
             }
             seen_classes.insert(v.class.clone());
